@@ -6,6 +6,8 @@ import Gaftools.Props.C11b
 #print axioms Gaftools.C11.done_output_range
 #print axioms Gaftools.C11.no_spurious_failure
 #print axioms Gaftools.C11.quiescent_terminates
+#print axioms Gaftools.C11.never_stuck
+#print axioms Gaftools.C11.reordered_fails_spuriously
 #print axioms Gaftools.C11.worker_step_decreases
 #print axioms Gaftools.C11.groups_flatten
 #print axioms Gaftools.C11.file_output_in_order
